@@ -385,7 +385,7 @@ def main():
         by = {}
         for i in adm:
             by.setdefault(cases[i]['cls'], {}).setdefault(cases[i]['n'], []).append(i)
-        classes = sorted(by, key=lambda k: (0 if k == 'minimiser' else 1, k))
+        classes = sorted(by, key=lambda k: ({'minimiser': 0, 'random': 1, 'corner': 2, 'axis': 3}.get(k, 4), k))
         turn = 0
         while len(chosen) < want and by:
             for k in list(classes):
